@@ -15,7 +15,7 @@ use serde::{Deserialize, Serialize};
 use serde_json::{json, Value};
 use std::collections::{BTreeMap, HashSet};
 
-pub const RULE: &str = "(a) move/undo histories (special-move biased, up to 120 ops, with occasional direct puts on untouched squares in the middle and continuation on a clone; marathon games of more than 1024 plies) from set-up and reachable seeds: after every apply and undo the key must equal the key of a board built from scratch (put in square order, one lose_castle_rights, one push_en_passant_target) with the same placement, rights and ep target - so any two histories ending in the same position are compared transitively; (b) direct set-up histories of put (including refused puts on occupied squares), remove (including empty squares), lose/pop castle rights and push/pop en-passant target in generated orders, compared with the from-scratch key after every operation; (c) constants read black-box from single-feature boards: 768 piece keys and 64 ep keys non-zero and pairwise distinct (also across the two families and against the rights-set keys), 16 rights-set keys pairwise distinct, and additivity key(set-up) == XOR of its constants; (d) N draws of the build script's table generator (precompile::zobrist::write_zobrist_tables) parsed back: 768 + 64 non-zero pairwise distinct entries, 16 distinct rights entries. Non-trivial history = contains a double step and an expired ep target, a rights change, castle or en passant; distinct = hash of the op sequence.";
+pub const RULE: &str = "(a) move/undo histories (special-move biased, up to 120 ops, with occasional direct puts on untouched squares in the middle and continuation on a clone; marathon games of more than 1024 plies) from set-up and reachable seeds: after every apply and undo the key must equal the key of a board built from scratch (put in square order, one lose_castle_rights, one push_en_passant_target) with the same placement, rights and ep target - so any two histories ending in the same position are compared transitively; (b) direct set-up histories of put (including refused puts on occupied squares), remove (including empty squares), lose/pop castle rights, push/pop en-passant target and - none of which the key may depend on - push/pop half-move clock (0..150, around 100, 255), toggled turn and set move counter in generated orders, compared with the from-scratch key after every operation; (c) constants read black-box from single-feature boards: 768 piece keys and 64 ep keys non-zero and pairwise distinct (also across the two families and against the rights-set keys), 16 rights-set keys pairwise distinct, and additivity key(set-up) == XOR of its constants; (d) N draws of the build script's table generator (precompile::zobrist::write_zobrist_tables) parsed back: 768 + 64 non-zero pairwise distinct entries, 16 distinct rights entries. Non-trivial history = contains a double step and an expired ep target, a rights change, castle or en passant; distinct = hash of the op sequence.";
 
 #[derive(Clone, Debug, Serialize, Deserialize)]
 pub enum SetupOp {
@@ -25,6 +25,11 @@ pub enum SetupOp {
     PopRights,
     PushEp(Option<u8>),
     PopEp,
+    /// the counters and the side to move are not part of the key
+    Clock(u8),
+    PopClock,
+    Turn,
+    Fullmove(u16),
 }
 
 #[derive(Clone, Debug, Serialize, Deserialize)]
@@ -70,13 +75,17 @@ impl Prop for Setups {
             2 => Just(SetupOp::PopRights),
             3 => prop::option::weighted(0.8, 0u8..64).prop_map(SetupOp::PushEp),
             2 => Just(SetupOp::PopEp),
+            2 => prop_oneof![2 => 0u8..=150, 2 => 98u8..=102, 1 => Just(255u8)].prop_map(SetupOp::Clock),
+            1 => Just(SetupOp::PopClock),
+            1 => Just(SetupOp::Turn),
+            1 => prop_oneof![1 => 0u16..600, 1 => Just(65535u16)].prop_map(SetupOp::Fullmove),
         ];
         prop::collection::vec(op, 1..60)
             .prop_map(|ops| Setup { ops })
             .boxed()
     }
     fn cases(&self, tier: Tier) -> u32 {
-        tier.pick(20_000, 500_000)
+        tier.pick(100_000, 500_000)
     }
     fn test(&self, c: &Setup, st: &mut Stats) -> TestResult {
         let mut b = Board::new();
@@ -86,6 +95,8 @@ impl Prop for Setups {
         let mut refused = false;
         let mut removed = false;
         let mut ep_replaced = false;
+        let mut clocks = 0u32;
+        let mut clock_100 = false;
         for (i, op) in c.ops.iter().enumerate() {
             match op {
                 SetupOp::Put(s, p, w) => {
@@ -138,6 +149,25 @@ impl Prop for Setups {
                         eps.pop();
                     }
                 }
+                SetupOp::Clock(v) => {
+                    b.push_halfmove_clock(*v);
+                    clocks += 1;
+                    if *v >= 100 {
+                        clock_100 = true;
+                    }
+                }
+                SetupOp::PopClock => {
+                    if clocks > 0 {
+                        b.pop_halfmove_clock();
+                        clocks -= 1;
+                    }
+                }
+                SetupOp::Turn => {
+                    b.toggle_turn();
+                }
+                SetupOp::Fullmove(v) => {
+                    b.set_fullmove_clock(*v as u32);
+                }
             }
             let want = scratch_key(&sq, *rights.last().unwrap(), *eps.last().unwrap());
             let got = b.current_position_hash();
@@ -161,6 +191,9 @@ impl Prop for Setups {
         }
         if ep_replaced {
             st.label("ep-target-replaced");
+        }
+        if clock_100 {
+            st.label("half-move-clock>=100");
         }
         if (refused || removed) && ep_replaced {
             st.nontrivial(fp_of(c), || json!({"ops": format!("{:?}", &c.ops[..c.ops.len().min(12)])}));
@@ -232,7 +265,7 @@ fn run_constants(env: &Env, agg: &mut Stats) -> Option<Violation> {
     }
     // additivity on generated set-ups
     let mut runner_seed = env.seed ^ 0xC05;
-    let n = env.tier.pick(4_000, 100_000);
+    let n = env.tier.pick(16_000, 100_000);
     for i in 0..n {
         // simple deterministic generator over the harness seed (not an engine input domain issue:
         // any placement is a valid argument of the key function)
@@ -324,7 +357,7 @@ pub fn parse_tables(text: &str) -> BTreeMap<String, Vec<u64>> {
 
 fn run_draws(env: &Env, agg: &mut Stats) -> Option<Violation> {
     let name = "C05/table-draws";
-    let n = env.tier.pick(200, 2_000);
+    let n = env.tier.pick(600, 2_000);
     let dir = "/verif/target/scratch";
     let _ = std::fs::create_dir_all(dir);
     let path = format!("{}/zobrist_draw_{}.rs", dir, std::process::id());
